@@ -134,27 +134,28 @@ Definition symlink (t : fs) (dest : N) (p : path) : res fs :=
   | None => Ok (set t p (Link dest))
   end.
 
-(** rename(2) *)
+(** moving a directory with everything below it *)
 Definition move_subtree (t : fs) (src dst : path) : fs :=
   let sub := filter (fun e => is_prefix src (fst e)) t in
   let rest := filter (fun e => negb (is_prefix src (fst e)) && negb (is_prefix dst (fst e))) t in
   map (fun e => (dst ++ skipn (length src) (fst e), snd e)) sub ++ rest.
 
+(** Go's os.Rename: an existing directory as the new name is refused up front (after reporting a
+    bad old name); otherwise rename(2) *)
 Definition rename (t : fs) (src dst : path) : res fs :=
-  do n <- lstat t src ;;
-  do _ <- parent_ok t dst ;;
-  match n with
-  | Dir =>
-      if path_eqb src dst then Ok t
-      else if is_prefix src dst then Err EINVAL
-      else match lookup t dst with
-           | Some Dir => if has_child t dst then Err ENOTEMPTY else Ok (move_subtree t src dst)
-           | Some _ => Err ENOTDIR
-           | None => Ok (move_subtree t src dst)
-           end
+  match lstat t dst with
+  | Ok Dir => do _ <- lstat t src ;; Err EEXIST
+  | Unmodelled => Unmodelled
   | _ =>
-      match lookup t dst with
-      | Some Dir => Err EISDIR
+      do n <- lstat t src ;;
+      do _ <- parent_ok t dst ;;
+      match n with
+      | Dir =>
+          if is_prefix src dst then Err EINVAL
+          else match lookup t dst with
+               | Some _ => Err ENOTDIR
+               | None => Ok (move_subtree t src dst)
+               end
       | _ => if path_eqb src dst then Ok t else Ok (set (unset t src) dst n)
       end
   end.
